@@ -91,30 +91,33 @@ def showKind : StmtKind → List Char
 /-- `Stmt` Display: each label followed by a blank, then the nucleus -/
 def showStmt (s : Stmt) : List Char := s.labels.flatMap (fun l => l.name ++ sp) ++ showKind s.nucleus
 
+/-- the assembly-level instruction a decoded instruction is printed as (aliases by name) -/
+def SimInstr.toAsm : SimInstr → AsmInstr
+  | .br cc off => .br cc (.off off)
+  | .add d s o => .add d s o
+  | .ld d o => .ld d (.off o)
+  | .st s o => .st s (.off o)
+  | .jsr (.imm o) => .jsr (.off o)
+  | .jsr (.reg b) => .jsrr b
+  | .and d s o => .and d s o
+  | .ldr d b o => .ldr d b o
+  | .str s b o => .str s b o
+  | .rti => .rti
+  | .not d s => .not d s
+  | .ldi d o => .ldi d (.off o)
+  | .sti s o => .sti s (.off o)
+  | .jmp b => if b = 7 then .ret else .jmp b
+  | .lea d o => .lea d (.off o)
+  | .trap v => if v = 0x20 then .getc else if v = 0x21 then .putc else if v = 0x22 then .puts
+      else if v = 0x23 then .in_ else if v = 0x24 then .putsp else if v = 0x25 then .halt else .trap v
+
 /-- `try_disassemble_line` + `disassemble_line` -/
 def disassembleKind (word : W) : StmtKind :=
   let fill := StmtKind.directive (.fill (.off word))
   if word.toNat < 0x0200 then fill
   else match SimInstr.decode word with
     | .error _ => fill
-    | .ok si => .instr (match si with
-      | .br cc off => .br cc (.off off)
-      | .add d s o => .add d s o
-      | .ld d o => .ld d (.off o)
-      | .st s o => .st s (.off o)
-      | .jsr (.imm o) => .jsr (.off o)
-      | .jsr (.reg b) => .jsrr b
-      | .and d s o => .and d s o
-      | .ldr d b o => .ldr d b o
-      | .str s b o => .str s b o
-      | .rti => .rti
-      | .not d s => .not d s
-      | .ldi d o => .ldi d (.off o)
-      | .sti s o => .sti s (.off o)
-      | .jmp b => if b = 7 then .ret else .jmp b
-      | .lea d o => .lea d (.off o)
-      | .trap v => if v = 0x20 then .getc else if v = 0x21 then .putc else if v = 0x22 then .puts
-          else if v = 0x23 then .in_ else if v = 0x24 then .putsp else if v = 0x25 then .halt else .trap v)
+    | .ok si => .instr si.toAsm
 
 def disassembleLine (word : W) : Stmt := ⟨[], disassembleKind word, (0, 0)⟩
 
